@@ -91,7 +91,7 @@ func sendOneHop(w *world.World, cs c06case, h hop, tokenID string, receiver stri
 			return false, fmt.Errorf("user on %s does not hold the token", h.from)
 		}
 		msg = nfttransfer.NewMsgNftTransfer(class, tokenID, u.Addr.String(), receiver, h.to, h.relay, "")
-	case "MT":
+	case "MT", "MT2":
 		class, id := "", ""
 		for k, v := range MtHoldings(src).Bal {
 			p := strings.Split(k, "|")
@@ -143,12 +143,10 @@ func sendOneHop(w *world.World, cs c06case, h hop, tokenID string, receiver stri
 // CheckC06: failed transfers refunded exactly; round trips restore the original.
 func CheckC06(tier string) int {
 	start := time.Now()
-	names := []string{A, B, C}
-	maxHops := 2
+	names := []string{A, B, C, D}
+	maxHops := 3
 	classes := []string{"cls", "nftcls", "nft", "abc/def", "kitties/v2/x", "nft/x/y", "nft/" + A + "/" + B + "/cls", "mixedCaseClass0"}
 	if tier == "thorough" {
-		names = []string{A, B, C, D}
-		maxHops = 3
 		classes = append(classes, "c"+strings.Repeat("x", 100), "nft/"+A+"/"+B+"/"+C+"/cls", "nftx/"+A)
 	}
 	base := world.NewWorld(world.WorldOpts{Names: names})
@@ -173,6 +171,15 @@ func CheckC06(tier string) int {
 	if r := base.Tx(a, u, mttypes.NewMsgMintMT("", denom, supply, "data", u.Addr.String(), u.Addr.String())); !r.OK() {
 		panic(r.Log)
 	}
+	// a second token id in the same class
+	if r := base.Tx(a, u, mttypes.NewMsgMintMT("", denom, supply, "data2", u.Addr.String(), u.Addr.String())); !r.OK() {
+		panic(r.Log)
+	}
+	var mtIDs []string
+	for k := range MtHoldings(a).Supply {
+		mtIDs = append(mtIDs, strings.Split(k, "|")[1])
+	}
+	sort.Strings(mtIDs)
 	init := base.Freeze()
 
 	// all simple routes from A with 1..maxHops hops, each hop direct or through any chain not on the hop
@@ -211,6 +218,37 @@ func CheckC06(tier string) int {
 
 	var cases []c06case
 	for _, rt := range routes {
+		// quick tier: three-hop routes with direct hops only, one class, one amount
+		light := false
+		if tier != "thorough" {
+			relayed := 0
+			for _, h := range rt {
+				if h.relay != "" {
+					relayed++
+				}
+			}
+			if len(rt) == 3 {
+				if relayed > 0 {
+					continue
+				}
+				light = true
+			} else if len(rt) == 2 && relayed == 2 {
+				continue
+			}
+		}
+		// both token ids of the class travel the route one after the other (the second arrives where the voucher class
+		// already exists) and return
+		cases = append(cases, c06case{module: "MT2", amount: 4, route: rt, failAt: -1})
+		for k := range rt {
+			cases = append(cases, c06case{module: "MT2", amount: 4, route: rt, failAt: k, cause: "invalid-receiver"})
+		}
+		if light {
+			cases = append(cases, c06case{module: "NFT", class: "cls", route: rt, failAt: -1}, c06case{module: "MT", amount: 4, route: rt, failAt: -1})
+			for k := range rt {
+				cases = append(cases, c06case{module: "NFT", class: "cls", route: rt, failAt: k, cause: "invalid-receiver"}, c06case{module: "MT", amount: 4, route: rt, failAt: k, cause: "invalid-receiver"})
+			}
+			continue
+		}
 		for _, cl := range classes {
 			if !mintable[cl] {
 				continue
@@ -236,8 +274,8 @@ func CheckC06(tier string) int {
 			fs = append(fs, explore.Finding{Property: "C06", Signature: sig, Detail: detail, Path: []string{cs.String()}})
 		}
 		tok := "tok1"
-		if cs.module == "MT" {
-			tok = ""
+		if cs.module == "MT" || cs.module == "MT2" {
+			tok = mtIDs[0]
 		}
 		// for NFT only the chosen class's token travels: give the others away first? No: they stay with the owner and are
 		// part of the snapshot; the travelling token is selected by class below.
@@ -281,6 +319,15 @@ func CheckC06(tier string) int {
 			return sendOneHop(w, cs, h, tok, receiver, &steps)
 		}
 		outcome := "round-trip-restored"
+		if cs.module == "MT2" {
+			for k, h := range cs.route {
+				if ok, err := sendOneHop(w, cs, h, mtIDs[0], User(w.C(h.to), 1).Addr.String(), &steps); err != nil || !ok {
+					fail("hop-failed", fmt.Sprintf("first token id, hop %d: ok=%v err=%v", k, ok, err))
+					return fs
+				}
+			}
+			tok = mtIDs[1]
+		}
 		for k, h := range cs.route {
 			receiver := User(w.C(h.to), 1).Addr.String()
 			before := holdingsAll(w)
@@ -323,6 +370,16 @@ func CheckC06(tier string) int {
 				return fs
 			}
 		}
+		if cs.module == "MT2" {
+			for k := len(cs.route) - 1; k >= 0; k-- {
+				h := cs.route[k]
+				back := hop{from: h.to, to: h.from, relay: h.relay}
+				if ok, err := sendOneHop(w, cs, back, mtIDs[0], User(w.C(back.to), 1).Addr.String(), &steps); err != nil || !ok {
+					fail("return-hop-failed", fmt.Sprintf("first token id, return over hop %d (%v): ok=%v err=%v", k, back, ok, err))
+					return fs
+				}
+			}
+		}
 		if end := holdingsAll(w); end != origin {
 			fail("round-trip-did-not-restore", fmt.Sprintf("start %s end %s", origin, end))
 			outcome = "round-trip-differs"
@@ -334,7 +391,7 @@ func CheckC06(tier string) int {
 		"states": stats.Steps + 1, "transitions": stats.Steps, "traces_validated_against_impl": stats.Executions,
 		"executions": stats.Executions, "cases": len(cases), "routes": len(routes), "classes": classes, "outcomes": stats.Outcomes,
 		"distinct_outcomes": len(stats.Outcomes), "samples": stats.Samples, "exhaustive": true,
-		"bounds": fmt.Sprintf("chains %v, simple routes from %s of 1..%d hops, each hop direct or through any other chain; NFT classes %d; MT amounts {1,4,%d}; failure at every hop (invalid receiver)", names, A, maxHops, len(classes), supply),
+		"bounds": fmt.Sprintf("chains %v, simple routes from %s of 1..%d hops, each hop direct or through any other chain; NFT classes %d; MT amounts {1,4,%d}; two token ids of one MT class travelling one after the other; failure at every hop (invalid receiver); quick tier: three-hop routes with direct hops only and one class / amount, two-hop routes with at most one relayed hop", names, A, maxHops, len(classes), supply),
 	}
 	fmt.Fprintf(os.Stderr, "[C06] cases=%d executions=%d steps=%d outcomes=%v (%.1fs)\n", len(cases), stats.Executions, stats.Steps, stats.Outcomes, time.Since(start).Seconds())
 	return report.Finish("C06", tier, start, "model_checking", cov, append([]string{
